@@ -48,7 +48,11 @@ fn is_true_partition(n: usize, fam: &[usize]) -> bool {
 
 /// Newman modularity in exact rationals (weights are small integers)
 pub fn modularity_oracle(b: &Built, fam: &[usize], weighted: bool, res_num: i128, res_den: i128) -> f64 {
-    let w = |e: &(usize, usize, f64)| -> i128 { if weighted { e.2 as i128 } else { 1 } };
+    // modularity is invariant under scaling all weights: measure them in units of the smallest one
+    // (exact for the power-of-two alphabets; 1 for the integer alphabets when a 1 is present)
+    let unit = b.edges.iter().map(|e| e.2.abs()).filter(|x| *x > 0.0 && x.is_finite()).fold(f64::INFINITY, f64::min);
+    let unit = if unit.is_finite() && b.edges.iter().all(|e| e.2.is_nan() || (e.2 / unit).fract() == 0.0) { unit } else { 1.0 };
+    let w = |e: &(usize, usize, f64)| -> i128 { if weighted { (e.2 / unit) as i128 } else { 1 } };
     let m: i128 = b.edges.iter().map(w).sum();
     let mut total = Q::zero();
     for &c in fam {
@@ -233,6 +237,9 @@ pub fn c12_families(tier: &str) -> Vec<(Family, usize, bool)> {
     // (graph family, max family size, run is_partition)
     let mut v = vec![];
     let kmax = if tier == "quick" { 3 } else { 4 };
+    for f in primed_small("w12", 3).into_iter().chain(route_small("w12", true)).chain(hist_small("w12", true)) {
+        v.push((f, 2, true));
+    }
     for n in 0..=3 {
         for k in kinds_all() {
             let heavy = k.multi && k.loops && n == 3;
@@ -248,6 +255,8 @@ pub fn c12_families(tier: &str) -> Vec<(Family, usize, bool)> {
             }
         }
     }
+    v.push((fam(US, 3, "wtiny", &ORD_ONE), 3, false));
+    v.push((fam(DS, 3, "whuge", &ORD_ONE), 2, false));
     if tier != "quick" {
         v.push((fam(US, 4, "u", &ORD_ONE), 3, true));
         v.push((fam(US, 4, "w12", &ORD_ONE), 2, false));
